@@ -250,8 +250,8 @@ pub fn prop() -> Prop {
             "no integer meets a float of equal value (the statement says `equals` without fixing that case): numbers are small integers only",
         ],
         subs: vec![
-            Sub { name: "random-sets", kind: Kind::Random { f: random_sets, quick: 30_000, thorough: 1_200_000, len: 400 } },
-            Sub { name: "random-forms", kind: Kind::Random { f: random_forms, quick: 10_000, thorough: 400_000, len: 300 } },
+            Sub { name: "random-sets", kind: Kind::Random { f: random_sets, quick: 150_000, thorough: 3_000_000, len: 400 } },
+            Sub { name: "random-forms", kind: Kind::Random { f: random_forms, quick: 50_000, thorough: 1_000_000, len: 300 } },
         ],
         direct: Some(direct),
         selftest: Some(crate::rfc::selftest),
